@@ -94,15 +94,16 @@ theorem seek_exact (fl : Flavor) (connOff faceOff : Int) (k : Kind) (ncellRead :
 /-! ### parallel reader = serial reader -/
 
 /-- **part_read_eq_serial**: `ref_part_bin_ugrid` on the writer's output — seeking to the generated offsets, reading each
-    section in chunks of ANY size ≥ 1 (up to what the 1 GiB allocator cap admits), on ANY number of ranks ≥ 1 — holds
+    section in chunks of ANY size ≥ 1 (up to what the 1 GiB allocator cap admits), on ANY number of ranks ≥ 1 (that an
+    `int` holds) — holds
     the vertices of the file and, per kind, the cells of the file in file order, minus later cells over an already
     stored node set (`ref_cell_add_many_global`) -/
 theorem part_read_chunk_independent (fl : Flavor) (m : UMesh) (hw : WellFormed m = true) (np : Nat) (hnp : 1 ≤ np)
-    (chunk : Nat) (h1 : 1 ≤ chunk) (h2 : 72 * chunk ≤ 2 ^ 30) :
+    (hnp2 : np < 2 ^ 31) (chunk : Nat) (h1 : 1 ≤ chunk) (h2 : 72 * chunk ≤ 2 ^ 30) :
     partRead fl np (some chunk) (encodeUgrid fl m) =
       .ok { nnode := m.nodes.length, np := np, nodes := m.nodes,
             cells := Kind.all.map fun k => dedupCells k ((normalize m).get k) [] } :=
-  partRead_encodeRaw fl (normalize m) (wf_normalize hw) np hnp chunk h1 h2
+  partRead_encodeRaw fl (normalize m) (wf_normalize hw) np hnp hnp2 chunk h1 h2
 
 /-- cells of one kind have pairwise different node sets (every valid mesh; a two-sided baffle is the exception) -/
 def DistinctCells (m : UMesh) : Prop := ∀ k : Kind, ((m.get k).map (nodeSet k)).Nodup
@@ -121,9 +122,9 @@ theorem distinct_normalize {m : UMesh} (h : DistinctCells m) : DistinctCells (no
 /-- … so for such a mesh the parallel reader holds exactly the mesh the serial reader returns, for every rank count
     and chunk size -/
 theorem part_read_eq_serial (fl : Flavor) (m : UMesh) (hw : WellFormed m = true) (hd : DistinctCells m) (np : Nat)
-    (hnp : 1 ≤ np) (chunk : Nat) (h1 : 1 ≤ chunk) (h2 : 72 * chunk ≤ 2 ^ 30) :
+    (hnp : 1 ≤ np) (hnp2 : np < 2 ^ 31) (chunk : Nat) (h1 : 1 ≤ chunk) (h2 : 72 * chunk ≤ 2 ^ 30) :
     (partRead fl np (some chunk) (encodeUgrid fl m)).map PartMesh.toMesh = decodeUgrid fl (encodeUgrid fl m) := by
-  rw [part_read_chunk_independent fl m hw np hnp chunk h1 h2, roundtrip_ugrid fl m hw]
+  rw [part_read_chunk_independent fl m hw np hnp hnp2 chunk h1 h2, roundtrip_ugrid fl m hw]
   have hdn := distinct_normalize hd
   simp only [Except.map, PartMesh.toMesh, Kind.all, List.map_cons, List.map_nil, List.getD_cons_zero,
     List.getD_cons_succ]
@@ -149,7 +150,7 @@ theorem part_chunk_in_range (ncell : Nat) (np : Nat) (hnp : 1 ≤ np) (hn : ncel
 
 /-- with the C's own chunk size -/
 theorem part_read_default_chunk (fl : Flavor) (m : UMesh) (hw : WellFormed m = true) (np : Nat) (hnp : 1 ≤ np)
-    (hsz : ∀ k : Kind, (m.get k).length ≤ 10 ^ 7) :
+    (hnp2 : np < 2 ^ 31) (hsz : ∀ k : Kind, (m.get k).length ≤ 10 ^ 7) :
     partRead fl np none (encodeUgrid fl m) =
       .ok { nnode := m.nodes.length, np := np, nodes := m.nodes,
             cells := Kind.all.map fun k => dedupCells k ((normalize m).get k) [] } := by
@@ -171,12 +172,17 @@ theorem part_read_default_chunk (fl : Flavor) (m : UMesh) (hw : WellFormed m = t
     induction ks with
     | nil => rfl
     | cons k ks ih => simp only [partSections, hsec k, ih, List.map_cons]
-  have hp := part_read_chunk_independent fl m hw np hnp 1 (le_refl _) (by norm_num)
+  have hp := part_read_chunk_independent fl m hw np hnp hnp2 1 (le_refl _) (by norm_num)
   unfold partRead at hp ⊢
   obtain ⟨hh, _⟩ := header_and_size fl m hw
   rw [hh] at hp ⊢
   rw [← hdrOf_normalize] at hp ⊢
   simp only [hdrOf_getD0] at hp ⊢
+  have hsmall : ¬ (((normalize m).nodes.length : Int) + (np : Int) ≥ 2 ^ 63 ∨
+      ((normalize m).nodes.length : Int) ≤ -(2 ^ 63 : Int)) := by
+    have := ((wf_iff _).1 hwn).1
+    omega
+  rw [if_neg hsmall] at hp ⊢
   cases hv : rdVerts fl (((normalize m).nodes.length : Int)).toNat ((encodeUgrid fl m).drop (7 * fl.ibytes)) with
   | error e => rw [hv] at hp; simp at hp
   | ok p =>
@@ -245,14 +251,14 @@ theorem gather_eq_export (fl : Flavor) (m : UMesh) :
   rw [h]; unfold encodeUgrid; rw [normalize_of_sorted m hs]
 
 /-- what the parallel writer writes, both readers read back as the gathered mesh (cell order kept) -/
-theorem roundtrip_gather (fl : Flavor) (m : UMesh) (hw : WellFormed m = true) (np : Nat) (hnp : 1 ≤ np) (chunk : Nat)
-    (h1 : 1 ≤ chunk) (h2 : 72 * chunk ≤ 2 ^ 30) :
+theorem roundtrip_gather (fl : Flavor) (m : UMesh) (hw : WellFormed m = true) (np : Nat) (hnp : 1 ≤ np)
+    (hnp2 : np < 2 ^ 31) (chunk : Nat) (h1 : 1 ≤ chunk) (h2 : 72 * chunk ≤ 2 ^ 30) :
     decodeUgrid fl (gatherUgrid fl m) = .ok m ∧
     partRead fl np (some chunk) (gatherUgrid fl m) =
       .ok { nnode := m.nodes.length, np := np, nodes := m.nodes,
             cells := Kind.all.map fun k => dedupCells k (m.get k) [] } := by
   rw [(gather_eq_export fl m).1]
-  exact ⟨decode_encodeRaw ugridCfg rfl _ (by decide) fl m hw, partRead_encodeRaw fl m hw np hnp chunk h1 h2⟩
+  exact ⟨decode_encodeRaw ugridCfg rfl _ (by decide) fl m hw, partRead_encodeRaw fl m hw np hnp hnp2 chunk h1 h2⟩
 
 /-! ### non-vacuity -/
 
@@ -272,6 +278,7 @@ example (fl : Flavor) :
     decodeUgrid fl (encodeUgrid fl sample) = .ok (normalize sample) ∧
     (partRead fl 5 (some 1) (encodeUgrid fl sample)).map PartMesh.toMesh = decodeUgrid fl (encodeUgrid fl sample) :=
   ⟨roundtrip_ugrid fl sample (by decide),
-   part_read_eq_serial fl sample (by decide) (by intro k; cases k <;> decide) 5 (by decide) 1 (by decide) (by decide)⟩
+   part_read_eq_serial fl sample (by decide) (by intro k; cases k <;> decide) 5 (by decide) (by decide) 1 (by decide)
+     (by decide)⟩
 
 end Refine.Props.C08Ugrid
